@@ -36,6 +36,13 @@ theorem c11_single_worker :
     KG.Gen.C11.queueWorkers = 1 ∧ KG.Gen.C11.syncDocumentedSingleThreaded = true := by
   decide
 
+/-- what "a refused or failed delivery stays pending and is delivered again later" (`Ctl.step`: a `requeue` answer keeps
+    the item in the queue, for ever) rests on: the `RequeueAfter` path of `processNextWorkItem` never counts a requeue, so
+    `MaxRequeueTimes` is never reached and the queue never gives an item up.  (With resync period 0 nothing else would
+    ever deliver a cluster again whose failure is cured by ANOTHER object, e.g. a server name released by its owner.) -/
+theorem c11_requeue_never_gives_up : KG.Gen.C11.requeueAfterIsCounted = false := by
+  decide
+
 /-! ## one `ClusterInfo` -/
 
 /-- every history (successful, refused and half-applied syncs in any mix) leaves a consistent `ClusterInfo` of the
